@@ -93,15 +93,16 @@ Scan(from, n) ==
         /\ maxFrom' = IF R = {} THEN maxFrom ELSE Max2(maxFrom, from)
         /\ UNCHANGED << chain, top, ninfo, tip, taint >>
 
-\* truncate_to_height(req) = Ok(to); `fork`: the environment replaces the chain above `to`
-Truncate(req, to, fork) ==
+\* truncate_to_height(req) = Ok(to) (and truncate_to_chain_state, which may settle below the height it was given);
+\* `fork`: the environment replaces the chain above `at`
+Truncate(req, to, fork, at) ==
     /\ to <= req
     /\ scanned' = { h \in scanned : h <= to }
     /\ txs' = [t \in DOMAIN txs |-> IF txs[t].mined > to THEN [txs[t] EXCEPT !.mined = -1] ELSE txs[t]]
-    /\ tip' = to
+    /\ tip' = IF tip = -1 \/ to = 0 THEN -1 ELSE Min2(tip, to)   \* the queue is cut above `to` (truncate_to_chain_state may name a height above the tip)
     /\ taint' = (taint \/ maxFrom - 1 > to)
-    /\ IF fork THEN /\ chain' = [x \in 1..Min2(top, to) |-> chain[x]]
-                    /\ top' = Min2(top, to)
+    /\ IF fork THEN /\ chain' = [x \in 1..Min2(top, at) |-> chain[x]]
+                    /\ top' = Min2(top, at)
                ELSE UNCHANGED << chain, top >>
     /\ UNCHANGED << known, ninfo, links, maxFrom >>
 
